@@ -48,10 +48,12 @@ try:
             pass
         return sh(cmd, cwd=wt, timeout=900)
     def run_tests():
-        for attempt in range(4):
+        # the client tests bind a fixed port (5780): another checkout's (possibly hung) test run makes the root package
+        # fail at once; a genuine failure fails every time
+        for attempt in range(8):
             rc, out = sh("go build ./ ./pkg/... && go vet . ./pkg/... && go test -vet=off -count=1 . ./pkg/...", cwd=wt)
-            if rc == 0 or "address already in use" not in out: return rc, out
-            time.sleep(5)
+            if rc == 0: return rc, out
+            time.sleep(45)
         return rc, out
     # 1. demo passes without the change
     place_demo()
